@@ -9,6 +9,7 @@ import (
 	"errors"
 	"fmt"
 	"math/rand"
+	"reflect"
 	"sort"
 	"strings"
 	"sync"
@@ -739,8 +740,49 @@ func readOutcome(f func() (*signature.EnvelopeContent, error), dersI *interner, 
 			return
 		}
 		out = map[string]any{"ok": true, "content": canonContent(c, dersI, valueTok)}
+		if d := lookupDefect(c); d != "" {
+			out["lookup_defect"] = d
+		}
 	}()
 	return out
+}
+
+// lookupDefect: "looking up an attribute by key returns that attribute, or an error when absent" — checked against the very
+// list the content carries, for every text key in it, for the decimal spelling of every integer key, for the specification's
+// own header names and for keys nobody used
+func lookupDefect(c *signature.EnvelopeContent) string {
+	si := &c.SignerInfo
+	attrs := si.SignedAttributes.ExtendedAttributes
+	present := map[string]int{}
+	for i, a := range attrs {
+		if k, ok := a.Key.(string); ok {
+			if _, dup := present[k]; !dup {
+				present[k] = i
+			}
+		}
+	}
+	probe := []string{"verif.absent.key", "", "alg", "cty", "crit", "io.cncf.notary.signingScheme", "io.cncf.notary.signingTime", "io.cncf.notary.expiry", "1", "2", "3"}
+	for _, a := range attrs {
+		switch k := a.Key.(type) {
+		case string:
+			probe = append(probe, k, strings.ToUpper(k), k+" ")
+		default:
+			probe = append(probe, fmt.Sprint(k))
+		}
+	}
+	for _, k := range probe {
+		got, err := si.ExtendedAttribute(k)
+		i, there := present[k]
+		switch {
+		case there && err != nil:
+			return fmt.Sprintf("lookup_by_key_fails_for_a_listed_attribute: key %q: %v", k, err)
+		case there && (got.Key != attrs[i].Key || got.Critical != attrs[i].Critical || !reflect.DeepEqual(got.Value, attrs[i].Value)):
+			return fmt.Sprintf("lookup_by_key_returns_another_attribute: key %q: got %+v, listed %+v", k, got, attrs[i])
+		case !there && err == nil:
+			return fmt.Sprintf("lookup_by_key_finds_an_absent_attribute: key %q: got %+v", k, got)
+		}
+	}
+	return ""
 }
 
 // ---------------------------------------------------------------------------------------------
